@@ -685,6 +685,10 @@ func (p *Prog) Summary(fn *ssa.Function, conds []ResultCond) []Atom {
 						for _, a := range condAtoms(rt, cnd.Const == "true") {
 							set[a.s] = a
 						}
+						// `return a && b` / `return a || b` arrive as a phi of booleans
+						for _, a := range fi.boolPhiFacts(r.Results[cnd.Idx], cnd.Const == "true", 0) {
+							set[a.s] = a
+						}
 					}
 				}
 			}
